@@ -191,6 +191,26 @@ fn graph_prog(k: usize, mask: u32, perm: &[usize], kinds: &[Kind], w: Wrap, rev_
     Some(Prog { defs, actor, actor_name: None })
 }
 
+/// reduced actor set for the body-kind sweep on 3 nodes: every entry, every init position,
+/// one service entry per init position, every named-service actor
+fn graph_actors_reduced(k: usize) -> Vec<GActor> {
+    let mut a = vec![GActor::None];
+    for e in 0..k {
+        a.push(GActor::Meths(vec![e]));
+    }
+    a.push(GActor::Meths((0..k).collect()));
+    a.push(GActor::Meths((0..k).rev().collect()));
+    for i in 0..k {
+        a.push(GActor::Class { init: i, svc: None });
+        a.push(GActor::Class { init: i, svc: Some((i + 1) % k) });
+    }
+    for e in 0..k {
+        a.push(GActor::Named(e));
+        a.push(GActor::ClassNamed { init: (e + 1) % k, svc: e });
+    }
+    a
+}
+
 fn graph_actors(k: usize, named: bool) -> Vec<GActor> {
     let mut a = vec![GActor::None];
     for e in 0..k {
@@ -252,9 +272,10 @@ fn graphs_kinds(fam: &'static str, k: usize, kinds_alpha: Vec<Kind>, w: Wrap) ->
             if kinds.iter().all(|x| *x == Kind::Record) {
                 continue; // covered by graphs_small
             }
+            let actors = if k >= 3 { graph_actors_reduced(k) } else { graph_actors(k, true) };
             for mask in 0..(1u32 << (k * k)) {
-                for a in graph_actors(k, true) {
-                    if let Some(pg) = graph_prog(k, mask, &p, &kinds, w, mask % 2 == 1, &a) {
+                for a in &actors {
+                    if let Some(pg) = graph_prog(k, mask, &p, &kinds, w, mask % 2 == 1, a) {
                         out.push(pg);
                     }
                 }
